@@ -215,12 +215,6 @@ func (h *Handler) commit() error {
 			h.tempFile.fp = nil
 		}
 
-		if Exists(h.path) {
-			if err := os.Remove(h.path); err != nil {
-				return err
-			}
-		}
-
 		if err := os.Rename(h.tempFile.path, h.path); err != nil {
 			return err
 		}
